@@ -9,7 +9,7 @@
 From Coq Require Import List String ZArith NArith.
 Import ListNotations.
 From Anthem Require Import Syntax.Fol Gen.TablesFol Model.FolPrint Model.FolLex Model.FolPratt Model.FolParse Model.FolClass
-  Proofs.FolPrattOk Proofs.FolTermRT Proofs.FolFormulaRT Proofs.FolRoundTrip Proofs.FolTopRT Proofs.FolStrip Proofs.FolC15 Proofs.FolImage.
+  Proofs.FolPrattOk Proofs.FolTermRT Proofs.FolFormulaRT Proofs.FolRoundTrip Proofs.FolTopRT Proofs.FolStrip Proofs.FolC15 Proofs.FolImage Proofs.FolFuel.
 Open Scope string_scope.
 
 (* ---------- round trip ---------- *)
@@ -255,3 +255,45 @@ Proof. vm_compute. repeat split. Qed.
 (* DESIGN's F7 example is not in the language: prefix* is possessive *)
 Example C15_F7_example_rejected : parse_theory_str "(not) and p." = PR_err.
 Proof. vm_compute. reflexivity. Qed.
+
+(* ---------- the model's own fuel (second audit, B17) ----------
+   The PEG phase of Model/FolParse.v runs on one counter, fuel_of ts = 4 * toks_size ts + 16, and answers
+   Oof / PR_oof when it is exhausted (the driver reports that as an error, never as a rejection).  It is
+   never exhausted: no entry point, on tokens or on text, returns PR_oof -- for EVERY input, accepted or
+   not.  (Measure: toks_size; every successful sub-parser strictly decreases it, also across the re-lexing
+   of a word after a keyword literal at its front; each function needs toks_size + a constant <= 3.) *)
+Theorem C15_never_out_of_fuel :
+  (forall ts : list token,
+     parse_formula_toks ts <> PR_oof /\ parse_theory_toks ts <> PR_oof /\
+     parse_spec_toks ts <> PR_oof /\ parse_ug_toks ts <> PR_oof /\ parse_ug_raw_toks ts <> PR_oof) /\
+  (forall s : string,
+     parse_formula_str s <> PR_oof /\ parse_theory_str s <> PR_oof /\
+     parse_spec_str s <> PR_oof /\ parse_ug_str s <> PR_oof /\ parse_ug_raw_str s <> PR_oof).
+Proof. exact fol_never_out_of_fuel. Qed.
+Print Assumptions C15_never_out_of_fuel.
+
+(* The three counters whose exhaustion is NOT the explicit Oof but would look like a rejection (None) or
+   a bad token ([TBad]): the Pratt phase (pratt = pratt_expr (length items) ...), the re-lexing of the
+   remainder of a word (relex = relex_run (S (length w))) and the lexer (lex = lex_go (S (length l))).
+   The value at the computed counter is the value at every larger one. *)
+Theorem C15_fuel_inner :
+  (forall f is, List.length is <= f ->
+     match pratt_expr mk_fpre (fun c l r => FBin c l r) formula_pre_bp formula_in_bp f 0 is with
+     | Some (t, []) => Some t | _ => None end = pratt_formula is) /\
+  (forall f is, List.length is <= f ->
+     match pratt_expr (fun _ t => IUn UNeg t) (fun o l r => IBin o l r) iterm_pre_bp iterm_in_bp f 0 is with
+     | Some (t, []) => Some t | _ => None end = pratt_iterm is) /\
+  (forall f w suf, List.length w < f -> relex_run f w suf = relex w suf) /\
+  (forall f s, String.length s < f -> lex_go f (chars s) = lex s).
+Proof. exact fol_fuel_inner. Qed.
+Print Assumptions C15_fuel_inner.
+
+(* not vacuous: the counter matters (below the bound the PEG phase does answer Oof, the lexer None), and
+   deeply nested / long inputs are decided at the computed bound *)
+Example C15_fuel_nonvacuous :
+  peg_formula 3 [TLParen; TLParen; TWord "p"; TRParen; TRParen] = Oof /\
+  parse_formula_toks [TLParen; TLParen; TWord "p"; TRParen; TRParen] = PR_ok (FAtomic (AAtom "p" [])) /\
+  lex_go 3 (chars "p.q") = None /\ lex "p.q" = Some [TWord "p"; TDot; TWord "q"] /\
+  parse_theory_str "((((((((((((p)))))))))))) and not not not not forallX$ q(X$) or notnotnot(((1))) = -(-(-(2))) <-> #true. p. p. p. p. p. p. p. p." <> PR_err /\
+  parse_theory_str "((((((((((((p))))))))))) ." = PR_err.
+Proof. repeat split; try (vm_compute; reflexivity). vm_compute. discriminate. Qed.
